@@ -6,7 +6,9 @@ Only clauses that are *necessary* for the dependent property are listed.
 """
 
 DEPENDS = {
-    "C01": {"C02": (["R3"], "lazy parse must run before extra/offset change (round trip with extra header bytes)")},
+    "C01": {"C02": (["R2", "R3"], "lazy parse must run before extra/offset change (round trip with extra header bytes); "
+                                   "a parse that fails part-way must leave the message decodable again (raw body restored "
+                                   "as received, not in a half-decoded form)")},
     "C02": {"C01": (["R1", "R2", "R3", "R4", "R5", "R6", "R7", "R8", "R11"],
                     "a parsed body is re-encoded through the codec: pass-through fidelity needs codec agreement"),
             "C03": (["R1", "R2"], "canonical zero-coding is what makes re-encoding byte-identical")},
